@@ -8,6 +8,7 @@ public `schemes` table for values no finite committee can realise; the oracle co
 the expected variation itself and judges the resulting delta.
 Each live driver is re-tuned (range, reference variance re-assigned) and judged again,
 and a step with a zero-variance committee must leave delta at max_delta.
+Committees are also handed over as plain lists / tuples, and half of the drivers have atoms of different masses.
 """
 from __future__ import annotations
 
